@@ -81,6 +81,9 @@ pub fn strategy() -> impl Strategy<Value = Case> {
             let mut targets = vec![];
             let mut defs = vec![];
             let mut shared_ext: BTreeMap<(String, String), String> = BTreeMap::new();
+            // a file with the command's stem in the command directory of a target that maps the
+            // command to another executable (half of the configurations)
+            let mut stem_decoys: Vec<(String, bool)> = vec![];
             for (i, p) in layout.iter().enumerate() {
                 let (kind, ext, custom_cmd_dir, custom_arg_dir) = per_target[i % per_target.len()];
                 let mut t = TargetSpec::new(p);
@@ -98,6 +101,7 @@ pub fn strategy() -> impl Strategy<Value = Case> {
                         .entry((t.commands_dir(), c.clone()))
                         .or_insert_with(|| exts[(ext as usize + ci) % 3].to_string())
                         .clone();
+                    let e_decoy = e.clone();
                     let d = match k {
                         0..=3 => Def::Stem(e),
                         4 | 5 => Def::Explicit(format!("shared/bin/{}-impl{}", c, e)),
@@ -108,6 +112,10 @@ pub fn strategy() -> impl Strategy<Value = Case> {
                     match &d {
                         Def::Explicit(path) => {
                             t.command_defs.insert(c.clone(), path.clone());
+                            // (not in a directory shared with other targets: there the file would define the command for them)
+                            if per_target[0].0 % 2 == 0 && t.commands_path.as_deref() != Some("tools/shared-cmds") {
+                                stem_decoys.push((format!("{}/{}{}", t.commands_dir(), c, e_decoy), false));
+                            }
                         }
                         Def::EmptyDef(_) => {
                             t.command_defs.insert(c.clone(), String::new());
@@ -130,7 +138,8 @@ pub fn strategy() -> impl Strategy<Value = Case> {
                 ..Default::default()
             };
             let n = config.targets.len();
-            let mut decoys = vec![];
+            let mut decoys = stem_decoys;
+            decoys.dedup();
             for (k, sel) in rdecoys {
                 let t = &config.targets[pick(sel, n)];
                 let c = &commands[(sel as usize) % ncmd];
